@@ -56,6 +56,8 @@ pub const POSITIONS: &[(&str, &str)] = &[
     ("position fen 4k3/8/8/3pP3/8/8/8/4K3 w - - 0 1", "4k3/8/8/3pP3/8/8/8/4K3 w - - 0 1"),
     ("position fen 8/8/8/8/8/k2r4/8/K7 b - - 4 3", "8/8/8/8/8/k2r4/8/K7 b - - 4 3"),
     ("position fen 7k/6Q1/6K1/8/8/8/8/8 b - - 0 1", "7k/6Q1/6K1/8/8/8/8/8 b - - 0 1"),
+    ("position fen 8/4P1k1/8/8/8/8/8/4K3 w - - 0 1", "8/4P1k1/8/8/8/8/8/4K3 w - - 0 1"),
+    ("position fen 4k3/8/8/8/8/8/5p2/4K3 b - - 0 1 moves f2f1q e1d2", "4k3/8/8/8/8/8/3K4/5q2 b - - 1 2"),
 ];
 
 pub const GOS: &[&str] = &["go depth 1", "go depth 3", "go movetime 200", "go movetime 0", "go depth 30", "go"];
@@ -341,7 +343,7 @@ fn tracking_batch(ctx: &Ctx, batch: &[(String, String)], l: &mut Local) {
 pub fn run_c07(ctx: &Ctx) -> i32 {
     let quick = ctx.quick();
     // alphabet: menus are smaller in the quick tier
-    let pos_menu: Vec<usize> = if quick { vec![1, 2, 3, 4, 7] } else { (0..POSITIONS.len()).collect() };
+    let pos_menu: Vec<usize> = if quick { vec![1, 2, 3, 4, 7, 9] } else { (0..POSITIONS.len()).collect() };
     let go_menu: Vec<usize> = if quick { vec![0, 1, 2] } else { vec![0, 1, 2, 3, 4, 5] };
     let mut alphabet: Vec<Cmd> = vec![Cmd::NewGame, Cmd::Stop];
     alphabet.extend(pos_menu.iter().map(|&i| Cmd::Position(i)));
